@@ -217,8 +217,13 @@ func bindValue(s *Summary, c *bindCase) {
 					continue
 				case entry == "ctx" || entry == "ctxmust":
 					// the methods of Context: BindForm / BindJSON / BindXML / ShouldBind(binder), and MustBind which panics with the error
-					rr := rux.New()
-					rr.Any("/b", func(cx *rux.Context) {
+					// (ONE router for all of them: its pooled contexts go from bind to bind)
+					if bindCtxRouter == nil {
+						bindCtxRouter = rux.New()
+						bindCtxRouter.Any("/b", func(cx *rux.Context) { bindCtxHandler(cx) })
+					}
+					rr := bindCtxRouter
+					bindCtxHandler = func(cx *rux.Context) {
 						b := map[string]binding.Binder{"query": binding.Query, "application/x-www-form-urlencoded": binding.Form, "application/json": binding.JSON, "text/xml": binding.XML}[media]
 						switch {
 						case entry == "ctxmust":
@@ -237,7 +242,7 @@ func bindValue(s *Summary, c *bindCase) {
 						default:
 							err = cx.ShouldBind(&got, b)
 						}
-					})
+					}
 					_, pan = safeBind(func() error { rr.ServeHTTP(httptest.NewRecorder(), req); return nil })
 				case entry == "Bind":
 					b := map[string]binding.Binder{"query": binding.Query, "application/x-www-form-urlencoded": binding.Form, "application/json": binding.JSON, "text/xml": binding.XML}[media]
@@ -314,6 +319,9 @@ func bindValue(s *Summary, c *bindCase) {
 		}
 	}
 }
+
+var bindCtxRouter *rux.Router
+var bindCtxHandler func(cx *rux.Context)
 
 type bindVoid struct {
 	Link  string `xml:"link" json:"link"`
@@ -459,6 +467,14 @@ func bindLocalRequired() any {
 // malformed input yields an error and never a panic
 func bindMalformed(s *Summary) {
 	bindGating(s)
+	// with the validator on and off: a decoding error is an error either way
+	bindMalformedRun(s, "on")
+	binding.DisableValidator()
+	bindMalformedRun(s, "off")
+	binding.ResetValidator()
+}
+
+func bindMalformedRun(s *Summary, validator string) {
 	v := bindT{Age: 42, Name: "a&=é<", Ok: true, Tags: []string{"x", "y"}}
 	try := func(method, media, body string, mustErr bool) {
 		_, ctype := bodyFor(media, v)
@@ -475,9 +491,9 @@ func bindMalformed(s *Summary) {
 		s.Compared++
 		s.addInfo("malformed_inputs", 1)
 		if pan != nil {
-			s.mismatch(map[string]any{"kind": "bind", "aspect": "malformed", "what": fmt.Sprintf("%s body %q (%s): panicked: %v", method, body+target, media, pan)}, nil)
+			s.mismatch(map[string]any{"kind": "bind", "aspect": "malformed", "what": fmt.Sprintf("%s body %q (%s, validator %s): panicked: %v", method, body+target, media, validator, pan)}, nil)
 		} else if mustErr && err == nil {
-			s.mismatch(map[string]any{"kind": "bind", "aspect": "malformed", "what": fmt.Sprintf("%s truncated body %q (%s) was bound without error: %+v", method, body, media, got)}, nil)
+			s.mismatch(map[string]any{"kind": "bind", "aspect": "malformed", "what": fmt.Sprintf("%s malformed body %q (%s, validator %s) was bound without error: %+v", method, body+target, media, validator, got)}, nil)
 		}
 	}
 	for _, media := range []string{"application/json", "text/xml", "application/xml"} {
